@@ -216,6 +216,13 @@ func (c *Chain) OnDelete(fn func(ctx context.Context, height uint64) error) {
 	c.mu.Unlock()
 }
 
+// ClearOnDelete forgets the registered handlers (a restarted node builds a new header store).
+func (c *Chain) ClearOnDelete() {
+	c.mu.Lock()
+	c.onDelete = nil
+	c.mu.Unlock()
+}
+
 // ---- subscriber
 
 var _ libhead.Subscriber[*header.ExtendedHeader] = (*Chain)(nil)
